@@ -355,6 +355,11 @@ func (c *Ctx) regexCallOf(fn *ssa.Function, mf *markerFacts) regexCall {
 							rc.repl, rc.replOK = s, true
 						}
 					}
+				case *ssa.Convert:
+					// []byte(<string constant>) written in place
+					if cst, ok := rv.X.(*ssa.Const); ok && cst.Value != nil && cst.Value.Kind() == constant.String {
+						rc.repl, rc.replOK = constant.StringVal(cst.Value), true
+					}
 				}
 			}
 		}
